@@ -132,7 +132,7 @@ theorem held_never_reexecuted_top (n : Node) (s : St) (v : Val)
 
 /-- …and the same for a call made from inside a formula: the evaluator for misses is not
 invoked, the log is unchanged, the held value is returned.  (`ha`: the cells exists – a cells
-that was deleted holds nothing, `C13.reachable_dead_cells_hold_nothing`, and its name is not
+that was deleted holds nothing, `C13.reachable_dead_cells_have_nothing`, and its name is not
 bound.) -/
 theorem held_never_reexecuted (ef : Node → St → Res × St) (n : Node) (s : St) (v : Val)
     (ha : env.alive n.1 = true)
